@@ -228,18 +228,30 @@ theorem tar_archive_shape (ms : List Tar.Member) :
   have := this ms
   omega
 
-/-- what a logical member with extension records must satisfy to be expressible: the ordinary member fits a plain
-    header, it is not itself an extension member, no key contains '=', and the record block fits the size field -/
+/-- what a logical tar member (full names, extension records) must satisfy to be expressible: every block the writer
+    emits for it – the 'L' / 'K' long-name members of GNU headers, the 'x' extension member of PAX, the ordinary member
+    with its cut or split name – fits a header block, and the member itself is well-formed (not a pseudo-member, no
+    '=' in a record key, `path` / `linkpath` records carry its own names, GNU members without records) -/
 structure PaxOK (m : Tar.PMember) : Prop where
-  /-- the header block actually written (name / link name cut when a `path` / `linkpath` record carries the full value) -/
-  main : Tar.MemberOK { hdr := Tar.mainHdr m, body := m.body }
+  raw : ∀ r ∈ Tar.expand m, Tar.MemberOK r
   logical : Tar.PMemberOK m
-  nameNul : (0 : UInt8) ∉ m.hdr.name
-  recordsFit : (Tar.paxBody m.pax).length < 8 ^ 11
 
-theorem mainHdr_of_no_records (m : Tar.PMember) (h : m.pax = []) : Tar.mainHdr m = m.hdr := by
-  unfold Tar.mainHdr
-  simp [h, Tar.lookupB]
+/-- sufficient for a USTAR/PAX member: the ordinary header block as written fits, the name has no NUL, the record
+    block fits the size field -/
+theorem paxOK_ustar (m : Tar.PMember) (hu : m.hdr.flavor = .ustar)
+    (main : Tar.MemberOK { hdr := Tar.mainHdr m, body := m.body }) (logical : Tar.PMemberOK m)
+    (nameNul : (0 : UInt8) ∉ m.hdr.name) (recordsFit : (Tar.paxBody m.pax).length < 8 ^ 11) : PaxOK m := by
+  refine ⟨?_, logical⟩
+  intro r hr
+  unfold Tar.expand at hr
+  rw [hu] at hr
+  simp only [List.mem_append, List.mem_singleton] at hr
+  rcases hr with hr | rfl
+  · split at hr
+    · simp at hr
+    · simp only [List.mem_singleton] at hr; subst hr
+      exact Tar.xMember_ok _ _ nameNul recordsFit
+  · exact main
 
 /-- **apk / archlinux streams with PAX extension records are well-formed**: archive/tar writes a member that carries
     extension records (apk: APK-TOOLS.checksum.SHA1 on every regular file) as an extension member – header named
@@ -251,18 +263,21 @@ theorem pax_roundtrip (ms : List Tar.PMember) (hm : ∀ m ∈ ms, PaxOK m) : Tar
   have hraw : ∀ r ∈ ms.flatMap Tar.expand, Tar.MemberOK r := by
     intro r hr
     obtain ⟨m, hmm, hrm⟩ := List.mem_flatMap.mp hr
-    have ok := hm m hmm
-    unfold Tar.expand at hrm
-    split at hrm
-    · rename_i hnil
-      simp only [List.mem_singleton] at hrm; subst hrm
-      have := ok.main; rwa [mainHdr_of_no_records m hnil] at this
-    · simp only [List.mem_cons, List.mem_nil_iff, or_false] at hrm
-      rcases hrm with rfl | rfl
-      · exact Tar.xMember_ok _ _ ok.nameNul ok.recordsFit
-      · exact ok.main
+    exact (hm m hmm).raw r hrm
   rw [Tar.read_archive _ hraw]
   exact Tar.collapse_expand ms (fun m h => (hm m h).logical)
+
+/-- non-vacuity: a GNU member whose name has 110 bytes (carried by an 'L' member), and a USTAR member whose 121-byte
+    name is split into prefix and name field, read back with their full names -/
+example :
+    let long : Bytes := List.replicate 60 100 ++ [47] ++ List.replicate 49 110
+    Tar.paxRead (Tar.paxArchive [{ hdr := { flavor := .gnu, name := long, mode := 0o644, size := 1 }, body := [120] }])
+      = some [{ hdr := { flavor := .gnu, name := long, mode := 0o644, size := 1 }, body := [120] }] := by decide +kernel
+example :
+    let long : Bytes := List.replicate 60 100 ++ [47] ++ List.replicate 60 110
+    Tar.splitUstar long = some (List.replicate 60 100, List.replicate 60 110)
+    ∧ Tar.paxRead (Tar.paxArchive [{ hdr := { flavor := .ustar, name := long, mode := 0o644, size := 1 }, body := [120] }])
+      = some [{ hdr := { flavor := .ustar, name := long, mode := 0o644, size := 1 }, body := [120] }] := by decide +kernel
 
 /-- the self-counting length prefix of every extension record is the length of the whole record -/
 theorem pax_record_length (k v : Bytes) :
@@ -421,16 +436,7 @@ theorem apk_stream_roundtrip (sig : Option (List Tar.PMember)) (control data : L
   apply Pkg.apkStream_reads
   · intro r hr
     obtain ⟨m, hmm, hrm⟩ := List.mem_flatMap.mp hr
-    have ok := hm m hmm
-    unfold Tar.expand at hrm
-    split at hrm
-    · rename_i hnil
-      simp only [List.mem_singleton] at hrm; subst hrm
-      have := ok.main; rwa [mainHdr_of_no_records m hnil] at this
-    · simp only [List.mem_cons, List.mem_nil_iff, or_false] at hrm
-      rcases hrm with rfl | rfl
-      · exact Tar.xMember_ok _ _ ok.nameNul ok.recordsFit
-      · exact ok.main
+    exact (hm m hmm).raw r hrm
   · exact fun m h => (hm m h).logical
 
 /-- **rpm, end to end**: lead, signature header, header and the compressed cpio payload; the reader recovers the lead
